@@ -48,7 +48,9 @@ fn final_ops(thorough: bool) -> Vec<Op> {
 fn prefix_alphabet() -> Vec<Op> {
   use Op::*;
   use Sz::*;
-  vec![B(N(7)), B(N(40)), B(R), T(U64), AB(A16, N(9)), D(0), D(1), Disc]
+  // (the last two: states reached through `clear` and through a seek of the cursor far beyond the capacity, which
+  // must leave it at the capacity)
+  vec![B(N(7)), B(N(40)), B(R), T(U64), AB(A16, N(9)), D(0), D(1), Disc, Clear, Rewind(Pos::Start(u32::MAX - 3))]
 }
 
 pub fn run_grid(run: &Run, tier: Tier, profile: &str, shard: usize, nshards: usize) {
